@@ -61,11 +61,11 @@ CHECKS = {
          "Generated any-typed collections over every leaf class are formatted, parsed and re-formatted by the real code; value equality on canonical trees, text fix-point, totality on self-containing and over-deep values (fatal stack overflows are caught because cases run in child processes), purity over call sequences on one notation. Sampled executions under oracles.",
          "NaN/Inf and invalid code points are outside the universe; Map text order is compared as a multiset of lines.",
          "DESIGN.md 6/C10"),
- "C11": ("grammar-derivation generator with an independent evaluator, re-parsing under perturbed schedules and the race detector (runtime monitoring)",
+ "C11": ("grammar-derivation generator with an independent evaluator, re-parsing under perturbed schedules, a controlled scheduler exploring scanner/parser schedules depth-first, and the race detector (runtime monitoring)",
          "Sentences derived from the rules of Syntax.cdsn (hash-checked) are parsed by the real parser and compared with an independently computed denotation; a small sub-space is enumerated exhaustively; every random sentence is parsed repeatedly with hook-injected yields/sleeps between scanner and parser goroutines and varying GOMAXPROCS, a sample under the race detector; unrepresentable literals must be rejected. Sampled executions under oracles.",
          "The encoded grammar is the one whose hash is checked; ambiguous literal forms are not generated.",
          "DESIGN.md 6/C11"),
- "C12": ("outcome classifier + goroutine-leak monitor over hostile generated inputs (runtime monitoring)",
+ "C12": ("outcome classifier + goroutine-leak monitor over hostile generated inputs, plus a controlled scheduler over scanner and parser with a logical nobody-left-parked oracle (runtime monitoring)",
          "Random bytes, token soups, mutated valid documents, kind/context mismatches and injected illegal characters are fed to the real ParseSource; every outcome must be a value or a located diagnostic whose location matches the source; runtime.Stack(all) is searched for scanner goroutines after each call; hangs are decided by a stall watchdog plus goroutine dump; Go's coverage-guided fuzzer (go test -fuzz) drives the same oracle. Sampled executions under oracles.",
          "The diagnostic text format identifies a located diagnostic.",
          "DESIGN.md 6/C12"),
